@@ -1,7 +1,10 @@
 package main
 
 import (
+	"crypto/sha256"
+
 	"verif/internal/refauth2"
+	"verif/internal/refder"
 	"verif/internal/refp7"
 	"verif/internal/refpe"
 )
@@ -40,3 +43,14 @@ func refAuth2(b []byte) (certData, payload []byte, err error) {
 	}
 	return a.Data, b[n:], nil
 }
+
+// refderParse returns the value octets of the single element in enc.
+func refderParse(enc []byte) ([]byte, int, error) {
+	n, rest, err := refder.Parse(enc)
+	if err != nil {
+		return nil, 0, err
+	}
+	return n.Content, rest, nil
+}
+
+func sha256sum(b []byte) []byte { h := sha256.Sum256(b); return h[:] }
